@@ -57,7 +57,7 @@ P = {
                          "tinydiff/emptycell", "enigma/tag", "enigma/dupline", "nests/addcell", "nests/trunc", "fdesc/setchar", "mdesc/delchar", "rdesc/dupchar",
                          "class/grow", "enigma/grow", "tiny/grow", "fdesc/grow", "mdesc/grow", "tiny/backslash", "tinydiff/backslash", "tiny/esc", "tinydiff/escz", "enigma/esc", "tiny/unicell", "tinydiff/unichar", "enigma/unichar", "nests/unicell", "fdesc/setuni", "mdesc/setuni"],
     "rule": "every vector is a distinct fault script (TLC state) of the fault model, applied to a seed and run in a sandboxed child; trace records are seeded random byte / field / text edits",
-    "level_text": "Fault enumeration driven by a TLA+ fault model (spec/faults/Mutate.tla): for every seed (hand-written feature classes assembled by the independent assembler, small javac classes; Tiny v2, tiny-diff, Enigma and nests texts; field / method / return descriptors) TLC enumerates every length / count / index / offset / tag / flag field (from the independent parser's span map) at boundary values (0, 1, max-1, max, sign boundary, value +-1 and doubled, file length +-1, the pool index of the enclosing constant = self reference), truncation at every field boundary and inside every field, neighbouring structural fields pushed to extremes together, and for text every line x dropped / added / emptied cell, indentation +-, changed tag, duplicated / deleted line, non-UTF-8 bytes, a trailing backslash, a backslash followed by each kind of follower (a character of 2 / 3 / 4 bytes, another backslash, n / t / 0 / u) at the end of the line and inside it, cells replaced by or starting with characters of 2 / 3 / 4 bytes, pairs on neighbouring lines; for descriptors every position x deletion / duplication / replacement (by each letter of the grammar and by characters of 2 / 3 / 4 bytes); and grown inputs that no mutation of a small seed reaches, built byte by byte at boundary sizes: annotations / arrays nested up to 100 000 (thorough 400 000) levels, invokeinterface and method declarations with up to 255 / 256 argument slots, a method of maximal length with a label at every bytecode offset (plus an exception range and a local variable ending at code_length), CLASS lines and Tiny v2 comment lines nested line by line, descriptors with up to 100 000 array dimensions or parameters. Each script is applied to the seed and the real parser (duke::read_class followed by write_class of what it accepted, tiny_v2::read, tiny_v2_diff::read_file, enigma_file::read_into, Nests::read, descriptor parse + write) runs in a child process with limited address space and wall clock; panics, crashes (stack overflow, out of memory, abort) and timeouts are outcomes. Seeded random byte / field / text edits go the same way and are judged by TLC.",
+    "level_text": "Fault enumeration driven by a TLA+ fault model (spec/faults/Mutate.tla): for every seed (hand-written feature classes assembled by the independent assembler, small javac classes; Tiny v2, tiny-diff, Enigma and nests texts; field / method / return descriptors) TLC enumerates every length / count / index / offset / tag / flag field (from the independent parser's span map) at boundary values (0, 1, max-1, max, sign boundary, value +-1 and doubled, file length +-1, the pool index of the enclosing constant = self reference), truncation at every field boundary and inside every field, neighbouring structural fields pushed to extremes together, and for text every line x dropped / added / emptied cell, indentation +-, changed tag, duplicated / deleted line, non-UTF-8 bytes, a trailing backslash, a backslash followed by each kind of follower (a character of 2 / 3 / 4 bytes, another backslash, n / t / 0 / u) at the end of the line and inside it, cells replaced by or starting with characters of 2 / 3 / 4 bytes, pairs on neighbouring lines; for descriptors every position x deletion / duplication / replacement (by each letter of the grammar and by characters of 2 / 3 / 4 bytes); and grown inputs that no mutation of a small seed reaches, built byte by byte at boundary sizes: annotations / arrays nested up to 100 000 (thorough 400 000) levels, invokeinterface and method declarations with up to 255 / 256 argument slots, a method of maximal length with a label at every bytecode offset (plus an exception range and a local variable ending at code_length), CLASS lines and Tiny v2 comment lines nested line by line, descriptors with up to 100 000 array dimensions or parameters. Each script is applied to the seed and the real parser (duke::read_class followed by write_class of what it accepted, tiny_v2::read, tiny_v2_diff::read_file, enigma_file::read_into, Nests::read, descriptor parse + write) runs in a child process with limited address space and wall clock; panics, crashes (stack overflow, out of memory, abort) and timeouts are outcomes. Seeded random byte / field / text edits go the same way and are judged by TLC. Grown inputs also cover one bootstrap method with up to 65 535 plain arguments used by 13 000 invokedynamic call sites or by a dynamic constant loaded 16 000 times (around the reader's total of 2^20 stored arguments).",
     "level_note": "This says nothing about inputs that were not generated. Trusted: the independent parser's span map, the fault applicator and the child process protocol in drivers/c16.rs, ulimit for the address space limit (3 GB), 10 s wall clock per case.",
     "assumptions": ["TLC/SANY/CommunityModules", "cfkit span map", "sh ulimit", "catch_unwind in the child"],
 }
